@@ -164,6 +164,11 @@ func c20Plugins(g G, root string, d *verifsim.Disk, write bool) []api.Plugin {
 				verifsim.LogEvent("cb<", idx, 0, "end", resultDigest(r)+" "+observedVersions(r))
 				if idx == 0 {
 					verifsim.LogEvent("files", idx, len(r.Errors), "", outputFilesDigest(r, root))
+					for _, f := range r.OutputFiles {
+						if len(f.Contents) <= 16<<10 {
+							verifsim.LogEvent("content", idx, 0, stripRoot(f.Path, root), string(f.Contents))
+						}
+					}
 					if write && len(r.Errors) == 0 && d != nil {
 						// end callbacks run after the outputs are written: every reported output
 						// of a build without errors is on the disk now, with the reported bytes
